@@ -191,7 +191,7 @@ impl<'a, W: World> Explorer<'a, W> {
             self.out.capped = Some(format!("state cap {}", self.lim.max_states));
             return true;
         }
-        if self.out.executions % 256 == 0 && self.t0.elapsed().as_secs_f64() > self.lim.max_secs {
+        if self.t0.elapsed().as_secs_f64() > self.lim.max_secs {
             self.out.capped = Some(format!("time cap {}s", self.lim.max_secs));
             return true;
         }
@@ -533,6 +533,14 @@ pub fn run_e2<W: World>(cfg: &Cfg, p: &E2Params, alpha: &Alphabet, lim: &Limits,
             };
             for op in ops {
                 if let Some(w) = ex.step(node, op) {
+                    if crate::alpha::is_probe(op) {
+                        ex.close(w, |e| {
+                            let mut h = e.hist(node);
+                            h.push(op);
+                            h
+                        });
+                        continue;
+                    }
                     if let Some(nn) = ex.add_state(node, op, &w, depth) {
                         next.push(nn);
                         if ex.out.samples.len() < 8 && ex.out.states % 211 == 1 {
